@@ -104,6 +104,9 @@ func (g *Gen) prim(root *gtext.T, key bool) *gtext.G {
 		if !key && !g.NoNaN && r.Chance(1, 10) {
 			return gtext.Scalar(gtext.GDouble, nans[r.Intn(len(nans))])
 		}
+		if r.Chance(1, 8) {
+			return gtext.Scalar(gtext.GDouble, uint64(r.Intn(2))<<63) // +0 or -0, also as set element / map key
+		}
 		if r.Chance(1, 2) {
 			return gtext.Scalar(gtext.GDouble, doubles[r.Intn(len(doubles))])
 		}
@@ -273,6 +276,17 @@ func (g *Gen) Invalidate(t *gtext.T, v *gtext.G) (*gtext.G, string, bool) {
 		return nil, "", false
 	}
 	s := sites[g.R.Intn(len(sites))]
+	// +0 and -0 are one value to Go's == and to every equality in this library, but two bit
+	// patterns: when the value holds a zero double, flipping its sign is tried often
+	var zs []site
+	for _, x := range sites {
+		if x.what == "zero-sign" {
+			zs = append(zs, x)
+		}
+	}
+	if len(zs) > 0 && g.R.Chance(1, 2) {
+		s = zs[g.R.Intn(len(zs))]
+	}
 	s.apply()
 	return c, s.what, true
 }
